@@ -5,7 +5,7 @@
    model and are NOT claimed from it: the check observes them on the implementation (deep snapshot, double dump). *)
 From Coq Require Import NArith ZArith List Bool String.
 Import ListNotations.
-From Y Require Import Prelude Node Re Resolve Images Tables NodeOps Types Recognize Loader Hooks Represent DumpProofs.
+From Y Require Import Prelude Node Re Resolve Images Tables NodeOps Types Recognize Loader Hooks Represent DumpProofs SweetenKeeps.
 Open Scope N_scope.
 
 (* No explicit tag is written, for values of every size and shape: every scalar is implicit under the dumper's own
@@ -64,6 +64,13 @@ Theorem C06_only_sweeteners_alter : forall o reg f c attrs,
       fold_left (apply_sweeten reg) (sweeten_order reg FUELK c) (Ok (Map tag_map ps genmark))
     else Err EYaml.
 Proof. reflexivity. Qed.
+
+(* yatiml's own dumping sweeteners (remove_attributes_with_default_values, remove_attribute) only delete attributes:
+   registries whose sweeten hooks are built from them satisfy the hypothesis sweeten_keeps of C06_tag_free. *)
+Theorem C06_deleting_sweeteners_keep_tag_free : forall o specs,
+  Forall (fun s => match Hooks.s_sweeten s with Some prog => forallb deleting_prog prog = true | None => True end) specs ->
+  sweeten_keeps (Hooks.interp_reg o specs) (fun n => tag_free n = true).
+Proof. intros o specs H. exact (deleting_registry_keeps o specs implicit_scalar H). Qed.
 
 (* ---- non-vacuity: a class with an extra-attributes parameter, look-alike strings, an enum, a date ---- *)
 Local Open Scope string_scope.
